@@ -278,6 +278,8 @@ structure AInv (dls : List Sys) (evs : List Ev) (a : Active) : Prop where
       itemAt evs (.lang S L) id ∨ (ex = false ∧ (itemAt evs .root id ∨ itemAt evs (.script S) id))
   noLangYet : ∀ S, a.curSys = some (S, "dflt") → ∀ L ex, ((S, L), ex) ∈ sysEvs evs → L = "dflt"
   scriptSeen : ∀ S L ex, ((S, L), ex) ∈ sysEvs evs → (S, "dflt") ∈ seenOf evs
+  seenNodup : (seenOf evs).Nodup
+  seenDls : ∀ s ∈ seenOf evs, s ∈ dls
 
 theorem AInv.init (tag : Tag) (dls : List Sys) : AInv dls [] { tag := tag, defaults := dls } := {
   defaults := rfl
@@ -290,7 +292,9 @@ theorem AInv.init (tag : Tag) (dls : List Sys) : AInv dls [] { tag := tag, defau
   lkSome := by intro k _; simp [List.lookup, seenOf, sysEvs]
   langIds := by intro S L ex h; simp [sysEvs] at h
   noLangYet := by intro S h; simp at h
-  scriptSeen := by intro S L ex h; simp [sysEvs] at h }
+  scriptSeen := by intro S L ex h; simp [sysEvs] at h
+  seenNodup := by simp [seenOf, sysEvs]
+  seenDls := by simp [seenOf, sysEvs] }
 
 /-- an item is added -/
 theorem AInv.item {dls : List Sys} {evs : List Ev} {a : Active} (h : AInv dls evs a) (id : LookupId) :
@@ -328,7 +332,9 @@ theorem AInv.item {dls : List Sys} {evs : List Ev} {a : Active} (h : AInv dls ev
         exact h.lkSome k hk
       langIds := by intro S L ex hm; rw [hsys, hnil] at hm; simp at hm
       noLangYet := by intro S hs; simp [hc] at hs
-      scriptSeen := by intro S L ex hm; rw [hsys, hnil] at hm; simp at hm }
+      scriptSeen := by intro S L ex hm; rw [hsys, hnil] at hm; simp at hm
+      seenNodup := by rw [hseen]; exact h.seenNodup
+      seenDls := by rw [hseen]; exact h.seenDls }
   | some sys =>
     obtain ⟨S, L⟩ := sys
     have hcur : curOf evs = some (S, L) := by rw [← h.cur, hc]
@@ -375,7 +381,9 @@ theorem AInv.item {dls : List Sys} {evs : List Ev} {a : Active} (h : AInv dls ev
           rw [h.langIds S' L' ex hm hL' id']
           simp [hne]
         noLangYet := by intro S' hs; rw [hsys]; exact h.noLangYet S' hs
-        scriptSeen := by rw [hsys, hseen]; exact h.scriptSeen }
+        scriptSeen := by rw [hsys, hseen]; exact h.scriptSeen
+        seenNodup := by rw [hseen]; exact h.seenNodup
+        seenDls := by rw [hseen]; exact h.seenDls }
     · have hreg' : regAfter .root evs = .lang S L := by rw [hreg]; simp [regOfSys, hL]
       have hLb : (L == "dflt") = false := by simp [hL]
       have ha : a.addLookup id = { a with lookups := assocPush (S, L) id a.lookups } := by
@@ -424,10 +432,584 @@ theorem AInv.item {dls : List Sys} {evs : List Ev} {a : Active} (h : AInv dls ev
               · exact Or.inr h3
               · exact Or.inl (Or.inr h2)
           · have hb : ((S', L') == (S, L)) = false := by simp at hk ⊢; exact hk
-            have hk' : ¬ (S = S' ∧ L = L') := by rintro ⟨rfl, rfl⟩; exact hk rfl
+            have hk' : ¬ (S' = S ∧ L' = L) := by rintro ⟨rfl, rfl⟩; exact hk rfl
             simp only [hb, Bool.false_eq_true, ↓reduceIte, h.langIds S' L' ex hm hL' id', hk', and_false, or_false,
               reduceCtorEq]
         noLangYet := by intro S' hs; simp [hc, hL] at hs
-        scriptSeen := by rw [hsys, hseen]; exact h.scriptSeen }
+        scriptSeen := by rw [hsys, hseen]; exact h.scriptSeen
+        seenNodup := by rw [hseen]; exact h.seenNodup
+        seenDls := by rw [hseen]; exact h.seenDls }
+
+
+theorem lookup_snoc_getD {κ β : Type} [BEq κ] [LawfulBEq κ] (m : List (κ × List β)) (k k' : κ) (v : List β)
+    (hk : m.lookup k = none) :
+    ((m ++ [(k, v)]).lookup k').getD [] = if k' == k then v else (m.lookup k').getD [] := by
+  rw [lookup_snoc]
+  by_cases h : k' == k
+  · have := beq_iff_eq.mp h; subst this
+    simp [hk]
+  · simp only [h, Bool.false_eq_true, ↓reduceIte]
+    cases m.lookup k' <;> simp
+
+/-- a `script` / `language` statement is entered -/
+theorem AInv.sys {dls : List Sys} {evs : List Ev} {a : Active} (h : AInv dls evs a) (s : Sys) (ex : Bool)
+    (hs1 : s ∉ seenOf evs) (hs2 : s ∈ dls) (hs3 : s.2 = "dflt" → ex = false)
+    (hs4 : s.2 ≠ "dflt" → ∃ l0, curOf evs = some (s.1, l0)) :
+    AInv dls (evs ++ [.sys s ex]) (a.setSystem s ex) := by
+  obtain ⟨S, L⟩ := s
+  have hsys : sysEvs (evs ++ [.sys (S, L) ex]) = sysEvs evs ++ [((S, L), ex)] := by simp [sysEvs_append, sysEvs]
+  have hseen : seenOf (evs ++ [.sys (S, L) ex]) = seenOf evs ++ [(S, L)] := by simp [seenOf, hsys]
+  by_cases hL : L = "dflt"
+  · subst hL
+    have ha : a.setSystem (S, "dflt") ex = { a with curSys := some (S, "dflt") } := by
+      simp [Active.setSystem]
+    rw [ha]
+    have hnoS : ∀ L' ex', ((S, L'), ex') ∉ sysEvs evs := by
+      intro L' ex' hm
+      exact hs1 (h.scriptSeen S L' ex' hm)
+    exact {
+      defaults := h.defaults
+      cur := by rw [curOf_snoc_sys]
+      rootIds := by intro id; rw [itemAt_snoc_sys]; exact h.rootIds id
+      scriptIds := by intro S' id; rw [itemAt_snoc_sys]; exact h.scriptIds S' id
+      sdKeys := h.sdKeys
+      sdSeen := by intro S' hs; rw [hseen]; exact List.mem_append_left _ (h.sdSeen S' hs)
+      lkKeys := h.lkKeys
+      lkSome := by
+        intro k hk
+        rw [hseen, h.lkSome k hk]
+        simp only [List.mem_append, List.mem_singleton]
+        constructor
+        · rintro ⟨h1, h2⟩; exact ⟨Or.inl h1, h2⟩
+        · rintro ⟨h1 | rfl, h2⟩
+          · exact ⟨h1, h2⟩
+          · exact absurd rfl h2
+      langIds := by
+        intro S' L' ex' hm hL' id
+        rw [hsys] at hm
+        simp only [List.mem_append, List.mem_singleton, Prod.mk.injEq] at hm
+        rcases hm with hm | ⟨⟨rfl, rfl⟩, rfl⟩
+        · simp only [itemAt_snoc_sys]; exact h.langIds S' L' ex' hm hL' id
+        · exact absurd rfl hL'
+      noLangYet := by
+        intro S' hs L' ex' hm
+        simp only [Option.some.injEq, Prod.mk.injEq, and_true] at hs
+        subst hs
+        rw [hsys] at hm
+        simp only [List.mem_append, List.mem_singleton, Prod.mk.injEq] at hm
+        rcases hm with hm | ⟨⟨_, rfl⟩, _⟩
+        · exact absurd hm (hnoS L' ex')
+        · rfl
+      scriptSeen := by
+        intro S' L' ex' hm
+        rw [hsys] at hm
+        rw [hseen]
+        simp only [List.mem_append, List.mem_singleton, Prod.mk.injEq] at hm ⊢
+        rcases hm with hm | ⟨⟨rfl, rfl⟩, rfl⟩
+        · exact Or.inl (h.scriptSeen S' L' ex' hm)
+        · exact Or.inr (by simp)
+      seenNodup := by rw [hseen]; exact nodup_snoc _ _ h.seenNodup hs1
+      seenDls := by
+        intro s' hs'
+        rw [hseen] at hs'
+        rcases List.mem_append.mp hs' with h1 | h1
+        · exact h.seenDls s' h1
+        · simp at h1; subst h1; exact hs2 }
+  · obtain ⟨l0, hcur⟩ := hs4 hL
+    have hneDD : (S, L) ≠ DD := by simp [DD, hL]
+    have hnokey : a.lookups.lookup (S, L) = none := by
+      have := h.lkSome (S, L) hneDD
+      cases hq : a.lookups.lookup (S, L) with
+      | none => rfl
+      | some v => rw [hq] at this; exact absurd (this.mp rfl).1 hs1
+    have hany : a.lookups.any (·.1 == (S, L)) = false := by
+      rw [← lookup_isSome_iff_any, hnokey]; rfl
+    have hLb : (L != "dflt") = true := by simp [hL]
+    have hdl : a.defaults.contains (S, L) = true := by rw [h.defaults]; simpa using hs2
+    have ha : a.setSystem (S, L) ex =
+        { a with curSys := some (S, L),
+                 lookups := a.lookups ++ [((S, L), if ex then [] else (a.lookups.lookup DD).getD [] ++ (a.scriptDefault.lookup S).getD [])] } := by
+      simp only [Active.setSystem, hLb, ↓reduceIte, hany, Bool.false_eq_true, hdl, Bool.true_or, assocGet, DD]
+    rw [ha]
+    have hSseen : (S, "dflt") ∈ seenOf evs := by
+      have hm := curOf_mem_seen evs _ hcur
+      simp only [seenOf, List.mem_map] at hm
+      obtain ⟨⟨⟨S0, L0⟩, ex0⟩, hm, he⟩ := hm
+      cases he
+      exact h.scriptSeen S l0 ex0 hm
+    exact {
+      defaults := h.defaults
+      cur := by rw [curOf_snoc_sys]
+      rootIds := by
+        intro id
+        have : (DD == (S, L)) = false := by
+          rw [Bool.eq_false_iff]; intro e; exact hneDD (beq_iff_eq.mp e).symm
+        rw [itemAt_snoc_sys, lookup_snoc_getD _ _ _ _ hnokey]
+        simp only [this, Bool.false_eq_true, ↓reduceIte]
+        exact h.rootIds id
+      scriptIds := by intro S' id; rw [itemAt_snoc_sys]; exact h.scriptIds S' id
+      sdKeys := h.sdKeys
+      sdSeen := by intro S' hs; rw [hseen]; exact List.mem_append_left _ (h.sdSeen S' hs)
+      lkKeys := by
+        rw [List.map_append]
+        apply nodup_snoc _ _ h.lkKeys
+        intro hm
+        obtain ⟨p, hp, hpe⟩ := List.mem_map.mp hm
+        have : a.lookups.any (·.1 == (S, L)) = true := List.any_eq_true.mpr ⟨p, hp, by simp [hpe]⟩
+        rw [hany] at this; cases this
+      lkSome := by
+        intro k hk
+        rw [hseen, lookup_snoc]
+        simp only [List.mem_append, List.mem_singleton]
+        cases hq : a.lookups.lookup k with
+        | some v =>
+          have := (h.lkSome k hk).mp (by rw [hq]; rfl)
+          simp only [Option.isSome_some, true_iff]
+          exact ⟨Or.inl this.1, this.2⟩
+        | none =>
+          have hnot : ¬ (k ∈ seenOf evs ∧ k.2 ≠ "dflt") := by
+            intro hh; have := (h.lkSome k hk).mpr hh; rw [hq] at this; cases this
+          by_cases hkk : k = (S, L)
+          · subst hkk; simp [hL]
+          · have : (k == (S, L)) = false := by simp [hkk]
+            simp only [this, Bool.false_eq_true, ↓reduceIte, Option.isSome_none, false_iff]
+            rintro ⟨h1 | h1, h2⟩
+            · exact hnot ⟨h1, h2⟩
+            · exact hkk h1
+      langIds := by
+        intro S' L' ex' hm hL' id
+        rw [hsys] at hm
+        simp only [List.mem_append, List.mem_singleton, Prod.mk.injEq] at hm
+        rw [lookup_snoc_getD _ _ _ _ hnokey]
+        simp only [itemAt_snoc_sys]
+        rcases hm with hm | ⟨⟨rfl, rfl⟩, rfl⟩
+        · have hne : (S', L') ≠ (S, L) := by
+            intro e; rw [e] at hm
+            exact hs1 (List.mem_map.mpr ⟨_, hm, rfl⟩)
+          have : ((S', L') == (S, L)) = false := by simp at hne ⊢; exact hne
+          simp only [this, Bool.false_eq_true, ↓reduceIte]
+          exact h.langIds S' L' ex' hm hL' id
+        · simp only [beq_self_eq_true, ↓reduceIte]
+          have hnolang : ¬ itemAt evs (.lang S' L') id := fun hh => hs1 (itemAt_lang_seen evs S' L' id hh)
+          cases ex'
+          · simp only [Bool.false_eq_true, ↓reduceIte, List.mem_append, h.rootIds, h.scriptIds, hnolang, false_or, true_and]
+          · simp [hnolang]
+      noLangYet := by intro S' hs; simp [hL] at hs
+      scriptSeen := by
+        intro S' L' ex' hm
+        rw [hsys] at hm
+        rw [hseen]
+        simp only [List.mem_append, List.mem_singleton, Prod.mk.injEq] at hm ⊢
+        rcases hm with hm | ⟨⟨rfl, rfl⟩, rfl⟩
+        · exact Or.inl (h.scriptSeen S' L' ex' hm)
+        · exact Or.inl hSseen
+      seenNodup := by rw [hseen]; exact nodup_snoc _ _ h.seenNodup hs1
+      seenDls := by
+        intro s' hs'
+        rw [hseen] at hs'
+        rcases List.mem_append.mp hs' with h1 | h1
+        · exact h.seenDls s' h1
+        · simp at h1; subst h1; exact hs2 }
+
+
+/-- the conditions on the remaining events -/
+def EvsOkFrom (dls : List Sys) : List Ev → List Ev → Prop
+  | _, [] => True
+  | pre, .item id :: rest => EvsOkFrom dls (pre ++ [.item id]) rest
+  | pre, .sys s ex :: rest =>
+    (s ∉ seenOf pre ∧ s ∈ dls ∧ (s.2 = "dflt" → ex = false) ∧ (s.2 ≠ "dflt" → ∃ l0, curOf pre = some (s.1, l0))) ∧
+    EvsOkFrom dls (pre ++ [.sys s ex]) rest
+
+theorem AInv.fold {dls : List Sys} : ∀ (rest pre : List Ev) (a : Active), AInv dls pre a → EvsOkFrom dls pre rest →
+    AInv dls (pre ++ rest) (rest.foldl evStep a) := by
+  intro rest
+  induction rest with
+  | nil => intro pre a h _; simpa using h
+  | cons e rest ih =>
+    intro pre a h hok
+    cases e with
+    | item id =>
+      simp only [EvsOkFrom] at hok
+      have := ih (pre ++ [.item id]) (a.addLookup id) (h.item id) hok
+      simpa [evStep] using this
+    | sys s ex =>
+      simp only [EvsOkFrom] at hok
+      have := ih (pre ++ [.sys s ex]) (a.setSystem s ex) (h.sys s ex hok.1.1 hok.1.2.1 hok.1.2.2.1 hok.1.2.2.2) hok.2
+      simpa [evStep] using this
+
+/-- the source-level form of the conditions: `script` statements name distinct scripts, `language`
+    statements follow a `script` statement and name distinct non-default languages, and every
+    language system entered is a declared one -/
+def sysOk (dls : List Sys) : Option Tag → List Sys → List (Sys × Bool) → Bool
+  | _, _, [] => true
+  | cur, seen, (s, ex) :: rest =>
+    !seen.contains s && dls.contains s && (if s.2 == "dflt" then !ex else cur == some s.1) &&
+    sysOk dls (some s.1) (seen ++ [s]) rest
+
+theorem curOf_script (pre : List Ev) (S : Tag) (h : (curOf pre).map (·.1) = some S) : ∃ l0, curOf pre = some (S, l0) := by
+  cases hc : curOf pre with
+  | none => rw [hc] at h; cases h
+  | some s => rw [hc] at h; simp at h; subst h; exact ⟨s.2, rfl⟩
+
+theorem evsOk_of_sysOk (dls : List Sys) : ∀ (rest pre : List Ev),
+    sysOk dls ((curOf pre).map (·.1)) (seenOf pre) (sysEvs rest) = true → EvsOkFrom dls pre rest := by
+  intro rest
+  induction rest with
+  | nil => intro pre _; trivial
+  | cons e rest ih =>
+    intro pre h
+    cases e with
+    | item id =>
+      simp only [EvsOkFrom]
+      apply ih
+      have h1 : seenOf (pre ++ [.item id]) = seenOf pre := by simp [seenOf, sysEvs_append, sysEvs]
+      rw [curOf_snoc_item, h1]
+      simpa [sysEvs] using h
+    | sys s ex =>
+      simp only [sysEvs, sysOk, Bool.and_eq_true, Bool.not_eq_true', List.contains_eq_mem, decide_eq_false_iff_not,
+        decide_eq_true_eq] at h
+      obtain ⟨⟨⟨h1, h2⟩, h3⟩, h4⟩ := h
+      simp only [EvsOkFrom]
+      refine ⟨⟨h1, h2, ?_, ?_⟩, ?_⟩
+      · intro e; simp [e] at h3; exact h3
+      · intro e
+        have : (s.2 == "dflt") = false := by simp [e]
+        simp only [this, Bool.false_eq_true, ↓reduceIte, beq_iff_eq] at h3
+        exact curOf_script pre s.1 h3
+      · apply ih
+        have h5 : seenOf (pre ++ [.sys s ex]) = seenOf pre ++ [s] := by simp [seenOf, sysEvs_append, sysEvs]
+        rw [curOf_snoc_sys, h5]
+        exact h4
+
+
+/-! ### `ActiveFeature::add_to_features` -/
+
+def sdStep (dls : List Sys) (D : List LookupId) (ls : List (Sys × List LookupId)) (p : Tag × List LookupId) :
+    List (Sys × List LookupId) :=
+  (ls.filter (·.1 != (p.1, "dflt"))) ++ [((p.1, "dflt"), if dls.contains (p.1, "dflt") then D ++ p.2 else p.2)]
+
+def dlStep (D : List LookupId) (ls : List (Sys × List LookupId)) (sys : Sys) : List (Sys × List LookupId) :=
+  if ls.any (·.1 == sys) then ls else ls ++ [(sys, D)]
+
+theorem Active.finish_eq (a : Active) :
+    a.finish = a.defaults.foldl (dlStep ((a.lookups.lookup DD).getD []))
+      (a.scriptDefault.foldl (sdStep a.defaults ((a.lookups.lookup DD).getD [])) (a.lookups.filter (·.1 != DD))) := rfl
+
+theorem mem_fold_sdStep (dls : List Sys) (D : List LookupId) (sd : List (Tag × List LookupId))
+    (hnd : (sd.map (·.1)).Nodup) (acc : List (Sys × List LookupId)) (sys : Sys) (l : List LookupId) :
+    (sys, l) ∈ sd.foldl (sdStep dls D) acc ↔
+      ((sys, l) ∈ acc ∧ ∀ p ∈ sd, sys ≠ (p.1, "dflt")) ∨
+      ∃ p ∈ sd, sys = (p.1, "dflt") ∧ l = (if dls.contains (p.1, "dflt") then D ++ p.2 else p.2) := by
+  induction sd generalizing acc with
+  | nil => simp
+  | cons q sd ih =>
+    simp only [List.map_cons, List.nodup_cons] at hnd
+    simp only [List.foldl_cons]
+    rw [ih hnd.2]
+    simp only [sdStep, List.mem_append, List.mem_filter, List.mem_singleton, Prod.mk.injEq, bne_iff_ne, ne_eq,
+      List.mem_cons, forall_eq_or_imp, exists_eq_or_imp, List.not_mem_nil, or_false]
+    constructor
+    · rintro (⟨(⟨h1, h2⟩ | ⟨h1, h2⟩), h3⟩ | h4)
+      · exact Or.inl ⟨h1, h2, h3⟩
+      · exact Or.inr (Or.inl ⟨h1, h2⟩)
+      · exact Or.inr (Or.inr h4)
+    · rintro (⟨h1, h2, h3⟩ | ⟨h1, h2⟩ | h4)
+      · exact Or.inl ⟨Or.inl ⟨h1, h2⟩, h3⟩
+      · refine Or.inl ⟨Or.inr ⟨h1, h2⟩, ?_⟩
+        intro p hp e
+        rw [h1] at e
+        simp only [Prod.mk.injEq, and_true] at e
+        exact hnd.1 (e ▸ List.mem_map_of_mem hp)
+      · exact Or.inr h4
+
+theorem mem_fold_dlStep (D : List LookupId) (dls : List Sys) (acc : List (Sys × List LookupId)) (sys : Sys) (l : List LookupId) :
+    (sys, l) ∈ dls.foldl (dlStep D) acc ↔ (sys, l) ∈ acc ∨ (sys ∈ dls ∧ (∀ l', (sys, l') ∉ acc) ∧ l = D) := by
+  induction dls generalizing acc with
+  | nil => simp
+  | cons s0 dls ih =>
+    simp only [List.foldl_cons]
+    rw [ih]
+    unfold dlStep
+    by_cases hany : acc.any (·.1 == s0) = true
+    · simp only [hany, ↓reduceIte, List.mem_cons]
+      obtain ⟨q, hq, hqe⟩ := List.any_eq_true.mp hany
+      have hqe' : q.1 = s0 := by simpa using hqe
+      constructor
+      · rintro (h | ⟨h1, h2, h3⟩)
+        · exact Or.inl h
+        · exact Or.inr ⟨Or.inr h1, h2, h3⟩
+      · rintro (h | ⟨h1 | h1, h2, h3⟩)
+        · exact Or.inl h
+        · exfalso; subst h1; exact h2 q.2 (by rw [← hqe']; exact hq)
+        · exact Or.inr ⟨h1, h2, h3⟩
+    · simp only [hany, Bool.false_eq_true, ↓reduceIte, List.mem_append, List.mem_singleton, Prod.mk.injEq, List.mem_cons,
+        List.not_mem_nil, or_false]
+      have hno : ∀ l', (s0, l') ∉ acc := by
+        intro l' hm; exact hany (List.any_eq_true.mpr ⟨_, hm, by simp⟩)
+      constructor
+      · rintro ((h | ⟨rfl, rfl⟩) | ⟨h1, h2, h3⟩)
+        · exact Or.inl h
+        · exact Or.inr ⟨Or.inl rfl, hno, rfl⟩
+        · refine Or.inr ⟨Or.inr h1, fun l' hm => h2 l' (Or.inl hm), h3⟩
+      · rintro (h | ⟨h1 | h1, h2, h3⟩)
+        · exact Or.inl (Or.inl h)
+        · exact Or.inl (Or.inr ⟨h1, h3⟩)
+        · by_cases he : sys = s0
+          · exact Or.inl (Or.inr ⟨he, h3⟩)
+          · refine Or.inr ⟨h1, ?_, h3⟩
+            rintro l' (hm | ⟨e, _⟩)
+            · exact h2 l' hm
+            · exact he e
+
+def langOf (l : List (Sys × Bool)) : List (Tag × Tag × Bool) :=
+  (l.filter (·.1.2 != "dflt")).map fun x => (x.1.1, x.1.2, x.2)
+
+/-- `Src.registered` with the `language` statements of the block given as a list -/
+def registeredWith (langsys : List (Tag × Tag)) (stmts : List (Tag × Tag × Bool)) (reg : Src.Reg) (script lang : Tag) : Bool :=
+  match reg with
+  | .root => langsys.contains (script, lang) && !(stmts.any fun (s, l, ex) => s == script && l == lang && ex)
+  | .script s =>
+    s == script && (lang == "dflt" || stmts.any fun (s', l, ex) => s' == s && l == lang && !ex)
+  | .lang s l => s == script && l == lang
+
+theorem registered_eq (langsys : List (Tag × Tag)) (body : List Stmt) (reg : Src.Reg) (script lang : Tag) :
+    Src.registered langsys body reg script lang = registeredWith langsys (Src.langStmts none body) reg script lang := by
+  cases reg <;> rfl
+
+theorem any_langOf (l : List (Sys × Bool)) (sc lg : Tag) (b : Bool) :
+    ((langOf l).any fun (s, l', ex) => s == sc && l' == lg && (ex == b)) = true ↔ ((sc, lg), b) ∈ l ∧ lg ≠ "dflt" := by
+  simp only [langOf, List.any_eq_true, List.mem_map, List.mem_filter, bne_iff_ne, ne_eq, Bool.and_eq_true, beq_iff_eq]
+  constructor
+  · rintro ⟨⟨s, l', ex⟩, ⟨⟨⟨s0, l0⟩, ex0⟩, ⟨hm, hne⟩, he⟩, ⟨h1, h2⟩, h3⟩
+    simp only [Prod.mk.injEq] at he
+    obtain ⟨rfl, rfl, rfl⟩ := he
+    simp only at h1 h2 h3 hne
+    subst h1 h2 h3
+    exact ⟨hm, hne⟩
+  · rintro ⟨hm, hne⟩
+    exact ⟨(sc, lg, b), ⟨((sc, lg), b), ⟨hm, hne⟩, rfl⟩, ⟨rfl, rfl⟩, rfl⟩
+
+
+theorem any_langOf_true (l : List (Sys × Bool)) (sc lg : Tag) :
+    ((langOf l).any fun (s, l', ex) => s == sc && l' == lg && ex) = true ↔ ((sc, lg), true) ∈ l ∧ lg ≠ "dflt" := by
+  have := any_langOf l sc lg true
+  simpa using this
+
+theorem any_langOf_false (l : List (Sys × Bool)) (sc lg : Tag) :
+    ((langOf l).any fun (s, l', ex) => s == sc && l' == lg && !ex) = true ↔ ((sc, lg), false) ∈ l ∧ lg ≠ "dflt" := by
+  have := any_langOf l sc lg false
+  simpa using this
+
+theorem bool_false_of_not {b : Bool} (h : ¬ (b = true)) : b = false := by cases b <;> simp_all
+
+theorem fst_unique {α β : Type} (l : List (α × β)) (h : (l.map (·.1)).Nodup) (a : α) (b b' : β)
+    (h1 : (a, b) ∈ l) (h2 : (a, b') ∈ l) : b = b' := by
+  induction l with
+  | nil => simp at h1
+  | cons p l ih =>
+    simp only [List.map_cons, List.nodup_cons] at h
+    have hno : ∀ c, (a, c) ∈ l → p.1 = a → False := by
+      intro c hc e
+      exact h.1 (e ▸ List.mem_map_of_mem (f := (·.1)) hc)
+    rcases List.mem_cons.mp h1 with e1 | h1'
+    · rcases List.mem_cons.mp h2 with e2 | h2'
+      · rw [← e1] at e2; cases e2; rfl
+      · exact (hno b' h2' (by rw [← e1])).elim
+    · rcases List.mem_cons.mp h2 with e2 | h2'
+      · exact (hno b h1' (by rw [← e2])).elim
+      · exact ih h.2 h1' h2'
+
+theorem itemAt_cases (evs : List Ev) (id : LookupId) (P : Src.Reg → Prop) :
+    (∃ r, itemAt evs r id ∧ P r) ↔
+      (itemAt evs .root id ∧ P .root) ∨ (∃ S, itemAt evs (.script S) id ∧ P (.script S)) ∨
+      (∃ S L, itemAt evs (.lang S L) id ∧ P (.lang S L)) := by
+  constructor
+  · rintro ⟨r, h1, h2⟩
+    cases r with
+    | root => exact Or.inl ⟨h1, h2⟩
+    | script S => exact Or.inr (Or.inl ⟨S, h1, h2⟩)
+    | lang S L => exact Or.inr (Or.inr ⟨S, L, h1, h2⟩)
+  · rintro (⟨h1, h2⟩ | ⟨S, h1, h2⟩ | ⟨S, L, h1, h2⟩)
+    · exact ⟨_, h1, h2⟩
+    · exact ⟨_, h1, h2⟩
+    · exact ⟨_, h1, h2⟩
+
+/-- **The language systems a lookup is registered for.**  After the events of a feature block, the
+    pairs `add_to_features` writes contain `id` for `(sc, lg)` exactly when `id` was added at a
+    position that the source semantics registers for `(sc, lg)`. -/
+theorem finish_spec {dls : List Sys} {evs : List Ev} {a : Active} (h : AInv dls evs a) (sc lg : Tag) (id : LookupId) :
+    (∃ l, ((sc, lg), l) ∈ a.finish ∧ id ∈ l) ↔
+      ∃ r, itemAt evs r id ∧ registeredWith dls (langOf (sysEvs evs)) r sc lg = true := by
+  rw [Active.finish_eq, h.defaults, itemAt_cases]
+  generalize hD : (a.lookups.lookup DD).getD [] = D
+  have hDm : ∀ id, id ∈ D ↔ itemAt evs .root id := by intro id; rw [← hD]; exact h.rootIds id
+  have hmem : ∀ l, ((sc, lg), l) ∈ dls.foldl (dlStep D) (a.scriptDefault.foldl (sdStep dls D) (a.lookups.filter (·.1 != DD))) ↔ _ :=
+    fun l => mem_fold_dlStep D dls _ (sc, lg) l
+  have hmem1 : ∀ l, ((sc, lg), l) ∈ a.scriptDefault.foldl (sdStep dls D) (a.lookups.filter (·.1 != DD)) ↔ _ :=
+    fun l => mem_fold_sdStep dls D a.scriptDefault h.sdKeys _ (sc, lg) l
+  have hmem0 : ∀ l, ((sc, lg), l) ∈ a.lookups.filter (·.1 != DD) ↔ a.lookups.lookup (sc, lg) = some l ∧ (sc, lg) ≠ DD := by
+    intro l
+    simp only [List.mem_filter, bne_iff_ne, ne_eq]
+    rw [mem_iff_lookup _ h.lkKeys]
+  simp only [registeredWith, Bool.and_eq_true, Bool.or_eq_true, beq_iff_eq, Bool.not_eq_true', List.contains_eq_mem,
+    decide_eq_true_eq]
+  by_cases hlg : lg = "dflt"
+  · -- the default language system of a script
+    subst hlg
+    have hno0 : ∀ l, ((sc, "dflt"), l) ∉ a.lookups.filter (·.1 != DD) := by
+      intro l hm
+      obtain ⟨h1, h2⟩ := (hmem0 l).mp hm
+      have := (h.lkSome _ h2).mp (by rw [h1]; rfl)
+      exact this.2 rfl
+    have hnolang : ∀ S L, itemAt evs (.lang S L) id → ¬ (S = sc ∧ L = "dflt") := by
+      rintro S L ⟨x, y, rfl, hr⟩ ⟨rfl, rfl⟩
+      rw [regAfter_root] at hr
+      cases hc : curOf x with
+      | none => rw [hc] at hr; cases hr
+      | some s => rw [hc] at hr; exact (regOfSys_eq_lang s _ _ hr).2 rfl
+    have hanyT : ((langOf (sysEvs evs)).any fun (s, l', ex) => s == sc && l' == "dflt" && ex) = false := by
+      apply bool_false_of_not; rw [any_langOf_true]; simp
+    cases hsd : a.scriptDefault.lookup sc with
+    | some l0 =>
+      have hin : (sc, l0) ∈ a.scriptDefault := (mem_iff_lookup _ h.sdKeys sc l0).mpr hsd
+      have hseen : (sc, "dflt") ∈ seenOf evs := h.sdSeen sc (by rw [hsd]; rfl)
+      have hdl : (sc, "dflt") ∈ dls := h.seenDls _ hseen
+      have hl1 : ∀ l, ((sc, "dflt"), l) ∈ a.scriptDefault.foldl (sdStep dls D) (a.lookups.filter (·.1 != DD)) ↔ l = D ++ l0 := by
+        intro l
+        rw [hmem1]
+        constructor
+        · rintro (⟨h1, _⟩ | ⟨p, hp, he, hl⟩)
+          · exact absurd h1 (hno0 l)
+          · simp only [Prod.mk.injEq, and_true] at he
+            have : p = (sc, l0) := by
+              have h2 : (sc, p.2) ∈ a.scriptDefault := by rw [he]; exact hp
+              have := fst_unique _ h.sdKeys sc p.2 l0 h2 hin
+              exact Prod.ext he.symm this
+            subst this
+            simpa [hdl] using hl
+        · rintro rfl
+          exact Or.inr ⟨(sc, l0), hin, rfl, by simp [hdl]⟩
+      have hS : ∀ id, id ∈ l0 ↔ itemAt evs (.script sc) id := by
+        intro id; have := h.scriptIds sc id; rwa [hsd] at this
+      constructor
+      · rintro ⟨l, hm, hid⟩
+        rw [hmem] at hm
+        rcases hm with hm | ⟨_, hno, _⟩
+        · rw [hl1] at hm; subst hm
+          rcases List.mem_append.mp hid with h1 | h1
+          · exact Or.inl ⟨(hDm id).mp h1, hdl, hanyT⟩
+          · exact Or.inr (Or.inl ⟨sc, (hS id).mp h1, rfl, Or.inl rfl⟩)
+        · exact absurd ((hl1 _).mpr rfl) (hno _)
+      · rintro (⟨h1, _⟩ | ⟨S, h1, rfl, _⟩ | ⟨S, L, h1, h2⟩)
+        · exact ⟨D ++ l0, (hmem _).mpr (Or.inl ((hl1 _).mpr rfl)), List.mem_append_left _ ((hDm id).mpr h1)⟩
+        · exact ⟨D ++ l0, (hmem _).mpr (Or.inl ((hl1 _).mpr rfl)), List.mem_append_right _ ((hS id).mpr h1)⟩
+        · exact absurd h2 (hnolang S L h1)
+    | none =>
+      have hnokey : ∀ p ∈ a.scriptDefault, p.1 ≠ sc := by
+        intro p hp e
+        have := (mem_iff_lookup _ h.sdKeys p.1 p.2).mp hp
+        rw [e, hsd] at this; cases this
+      have hl1 : ∀ l, ((sc, "dflt"), l) ∉ a.scriptDefault.foldl (sdStep dls D) (a.lookups.filter (·.1 != DD)) := by
+        intro l hm
+        rw [hmem1] at hm
+        rcases hm with ⟨h1, _⟩ | ⟨p, hp, he, _⟩
+        · exact hno0 l h1
+        · simp only [Prod.mk.injEq, and_true] at he
+          exact hnokey p hp he.symm
+      have hnoS : ¬ itemAt evs (.script sc) id := by
+        intro hh
+        have := (h.scriptIds sc id).mpr hh
+        rw [hsd] at this; simp at this
+      constructor
+      · rintro ⟨l, hm, hid⟩
+        rw [hmem] at hm
+        rcases hm with hm | ⟨hdl, _, rfl⟩
+        · exact absurd hm (hl1 l)
+        · exact Or.inl ⟨(hDm id).mp hid, hdl, hanyT⟩
+      · rintro (⟨h1, hdl, _⟩ | ⟨S, h1, rfl, _⟩ | ⟨S, L, h1, h2⟩)
+        · exact ⟨D, (hmem _).mpr (Or.inr ⟨hdl, hl1, rfl⟩), (hDm id).mpr h1⟩
+        · exact absurd h1 hnoS
+        · exact absurd h2 (hnolang S L h1)
+  · -- a language of a script
+    have hneDD : (sc, lg) ≠ DD := by simp [DD, hlg]
+    have hl1 : ∀ l, ((sc, lg), l) ∈ a.scriptDefault.foldl (sdStep dls D) (a.lookups.filter (·.1 != DD)) ↔
+        a.lookups.lookup (sc, lg) = some l := by
+      intro l
+      rw [hmem1, hmem0]
+      constructor
+      · rintro (⟨⟨h1, _⟩, _⟩ | ⟨p, _, he, _⟩)
+        · exact h1
+        · simp only [Prod.mk.injEq] at he; exact absurd he.2 hlg
+      · intro h1
+        refine Or.inl ⟨⟨h1, hneDD⟩, ?_⟩
+        intro p _ he
+        simp only [Prod.mk.injEq] at he; exact hlg he.2
+    cases hlk : a.lookups.lookup (sc, lg) with
+    | some l0 =>
+      have hseen : (sc, lg) ∈ seenOf evs := ((h.lkSome _ hneDD).mp (by rw [hlk]; rfl)).1
+      obtain ⟨⟨_, ex⟩, hm, he⟩ := List.mem_map.mp hseen
+      simp only at he
+      subst he
+      have hdl : (sc, lg) ∈ dls := h.seenDls _ hseen
+      have hids := h.langIds sc lg ex hm hlg id
+      rw [hlk] at hids
+      simp only [Option.getD_some] at hids
+      have hanyT : ((langOf (sysEvs evs)).any fun (s, l', ex) => s == sc && l' == lg && ex) = !(!ex) := by
+        cases ex
+        · show _ = false
+          apply bool_false_of_not; rw [any_langOf_true]
+          rintro ⟨h1, _⟩
+          have := fst_unique _ h.seenNodup (sc, lg) false true hm h1
+          cases this
+        · exact (any_langOf_true _ sc lg).mpr ⟨hm, hlg⟩
+      have hanyF : (((langOf (sysEvs evs)).any fun (s, l', ex) => s == sc && l' == lg && !ex) = true) ↔ ex = false := by
+        rw [any_langOf_false]
+        constructor
+        · rintro ⟨h1, _⟩; exact fst_unique _ h.seenNodup (sc, lg) ex false hm h1
+        · rintro rfl; exact ⟨hm, hlg⟩
+      constructor
+      · rintro ⟨l, hml, hid⟩
+        rw [hmem] at hml
+        rcases hml with hml | ⟨_, hno, _⟩
+        · rw [hl1, hlk] at hml
+          cases hml
+          rcases hids.mp hid with h1 | ⟨hex, h1 | h1⟩
+          · exact Or.inr (Or.inr ⟨sc, lg, h1, rfl, rfl⟩)
+          · exact Or.inl ⟨h1, hdl, by rw [hanyT, hex]; rfl⟩
+          · exact Or.inr (Or.inl ⟨sc, h1, rfl, Or.inr (hanyF.mpr hex)⟩)
+        · exact absurd ((hl1 l0).mpr hlk) (hno l0)
+      · intro hr
+        refine ⟨l0, (hmem _).mpr (Or.inl ((hl1 l0).mpr hlk)), hids.mpr ?_⟩
+        rcases hr with ⟨h1, _, h3⟩ | ⟨S, h1, rfl, h2⟩ | ⟨S, L, h1, rfl, rfl⟩
+        · rw [hanyT] at h3
+          exact Or.inr ⟨by simpa using h3, Or.inl h1⟩
+        · rcases h2 with h2 | h2
+          · exact absurd h2 hlg
+          · exact Or.inr ⟨hanyF.mp h2, Or.inr h1⟩
+        · exact Or.inl h1
+    | none =>
+      have hnseen : (sc, lg) ∉ seenOf evs := by
+        intro hs
+        have := (h.lkSome _ hneDD).mpr ⟨hs, hlg⟩
+        rw [hlk] at this; cases this
+      have hnoev : ∀ b, ((sc, lg), b) ∉ sysEvs evs := fun b hm => hnseen (List.mem_map.mpr ⟨_, hm, rfl⟩)
+      have hanyT : ((langOf (sysEvs evs)).any fun (s, l', ex) => s == sc && l' == lg && ex) = false := by
+        apply bool_false_of_not; rw [any_langOf_true]; rintro ⟨h1, _⟩; exact hnoev _ h1
+      have hanyF : ¬ (((langOf (sysEvs evs)).any fun (s, l', ex) => s == sc && l' == lg && !ex) = true) := by
+        rw [any_langOf_false]; rintro ⟨h1, _⟩; exact hnoev _ h1
+      have hno1 : ∀ l, ((sc, lg), l) ∉ a.scriptDefault.foldl (sdStep dls D) (a.lookups.filter (·.1 != DD)) := by
+        intro l hm; rw [hl1, hlk] at hm; cases hm
+      constructor
+      · rintro ⟨l, hml, hid⟩
+        rw [hmem] at hml
+        rcases hml with hml | ⟨hdl, _, rfl⟩
+        · exact absurd hml (hno1 l)
+        · exact Or.inl ⟨(hDm id).mp hid, hdl, hanyT⟩
+      · rintro (⟨h1, hdl, _⟩ | ⟨S, h1, rfl, h2⟩ | ⟨S, L, h1, rfl, rfl⟩)
+        · exact ⟨D, (hmem _).mpr (Or.inr ⟨hdl, hno1, rfl⟩), (hDm id).mpr h1⟩
+        · rcases h2 with h2 | h2
+          · exact absurd h2 hlg
+          · exact absurd h2 hanyF
+        · exact absurd (itemAt_lang_seen evs _ _ id h1) hnseen
 
 end Fontc.FeaCompile
